@@ -605,6 +605,11 @@ class LCA_Database(Index):
         for sig, vals in temp_vals.items():
             mhd[sig].add_many(vals)
 
+        # signatures that hold no hash at this scaled value have no entry in
+        # the inverted index; they are still part of the database.
+        for idx in self._idx_to_ident:
+            mhd[idx]
+
         sigd = {}
         for idx, mh in mhd.items():
             ident = self._idx_to_ident[idx]
